@@ -23,6 +23,8 @@ pub struct Script {
     inner: Vec<Op>,
     ready: bool,
     item: bool,
+    /// spans owned by the scripted future (held across awaits), dropped with it
+    pub held: Vec<Span>,
 }
 
 pub struct ScriptCell(UnsafeCell<Script>);
@@ -37,10 +39,11 @@ impl ScriptCell {
             inner: vec![],
             ready: false,
             item: false,
+            held: vec![],
         })))
     }
     #[allow(clippy::mut_from_ref)]
-    fn get(&self) -> &mut Script {
+    pub fn get(&self) -> &mut Script {
         unsafe { &mut *self.0.get() }
     }
 }
@@ -61,6 +64,21 @@ fn run_body(cell: &ScriptCell) -> (bool, bool) {
     }
     (s.ready, s.item)
 }
+
+macro_rules! drop_held {
+    ($t:ident) => {
+        impl Drop for $t {
+            fn drop(&mut self) {
+                // the future owns the spans it held across its suspension points
+                let held = std::mem::take(&mut self.0.get().held);
+                drop(held);
+            }
+        }
+    };
+}
+drop_held!(ScriptedFuture);
+drop_held!(ScriptedStream);
+drop_held!(ScriptedSink);
 
 pub struct ScriptedFuture(Arc<ScriptCell>);
 impl Future for ScriptedFuture {
@@ -111,7 +129,10 @@ impl Sink<u32> for ScriptedSink {
         }
     }
     fn poll_close(self: Pin<&mut Self>, _cx: &mut Context<'_>) -> Poll<Result<(), ()>> {
-        if run_body(&self.0).0 {
+        let (ready, err) = run_body(&self.0);
+        if ready && err {
+            Poll::Ready(Err(()))
+        } else if ready {
             Poll::Ready(Ok(()))
         } else {
             Poll::Pending
@@ -171,8 +192,9 @@ pub fn poll_task(tb: &mut TaskBox, ctx: &mut ThreadCtx, idx: usize, kind: PollKi
         s.idx = idx;
         s.inner = inner.to_vec();
         s.ready = ready;
-        s.item = kind == PollKind::PollNextItem;
+        s.item = kind == PollKind::PollNextItem || kind == PollKind::PollCloseErr;
     }
+    ctx.cur_cell = Some(tb.cell.clone());
     let waker = noop_waker();
     let mut cx = Context::from_waker(&waker);
     let out = match (tb.obj.as_mut(), kind) {
@@ -183,10 +205,13 @@ pub fn poll_task(tb: &mut TaskBox, ctx: &mut ThreadCtx, idx: usize, kind: PollKi
         (Some(TaskObj::Sink(s)), PollKind::PollReady) => format!("{:?}", s.as_mut().poll_ready(&mut cx)),
         (Some(TaskObj::Sink(s)), PollKind::StartSend) => format!("{:?}", s.as_mut().start_send(1)),
         (Some(TaskObj::Sink(s)), PollKind::PollFlush) => format!("{:?}", s.as_mut().poll_flush(&mut cx)),
-        (Some(TaskObj::Sink(s)), PollKind::PollClose) => format!("{:?}", s.as_mut().poll_close(&mut cx)),
+        (Some(TaskObj::Sink(s)), PollKind::PollClose) | (Some(TaskObj::Sink(s)), PollKind::PollCloseErr) => {
+            format!("{:?}", s.as_mut().poll_close(&mut cx))
+        }
         _ => "mismatch".to_string(),
     };
     tb.cell.get().ctx = std::ptr::null_mut();
+    ctx.cur_cell = None;
     Ret::Value(out)
 }
 
